@@ -110,6 +110,26 @@ LEVEL_TEXT = ("Machine-checked Coq theorems (coq/props/C16.v), for all inputs.  
               "bits(a 2^n) = bits a + n, n (bits a - 1) + 1 <= bits(a^n) <= n bits a + 1, bits(s B^e) <= bits s + e bits B + 1, mul linear, "
               "and no constant bounds the result size of shl by the input size (classification of shl / set_bit / ones / pow / to_int / ln "
               "scaling as value-sized results, guarded only by the allocator's documented failure).  "
+              "(5) Round 4, proved here.  Serde deserialisers (Cross/SerdeText.v): every visit_* method of the five visitors (which methods "
+              "each overrides, the Deserializer method asked for on the human-readable branch - deserialize_str for all types -, the parser "
+              "each visit_str hands its text to, the infinity texts, the zero-significand exponent table are regenerated into "
+              "coq/gen/SerdeSites.v and the model runs them) returns Ok or Err on EVERY event (string, bytes, sequence, map with missing / "
+              "duplicate / unknown fields and failing elements, anything else), for every base >= 2; a string goes to the FromStr machinery "
+              "(= the index-level parser models of round 3, so Ok exactly on the documented grammars; RBig: positive denominator, lowest "
+              "terms), anything that is not a string / bytes / struct is refused; serde_json::from_slice of ANY byte string is Ok or Err "
+              "(model of serde_json's string layer incl. escapes and surrogate pairs, never out of fuel); deserialize_repr's zero-denominator "
+              "test is what keeps reduce2's unwrap from firing.  Repr::new / try_normalize with the isize exponent (Cross/ReprNew.v): as-is "
+              "= specification (normal form, or the documented overflow panic exactly when the normal form's exponent exceeds isize::MAX), "
+              "never the arithmetic-overflow panic; the code before 064626d is refuted (panic 'attempt to add with overflow' / "
+              "10 * 10^isize::MAX = 1 * 10^isize::MIN; the struct form of the DBig deserialiser panicked).  Extended Lehmer gcd "
+              "(Cross/LehmerExtTermination.v over C12's model): C12 lehmer_ext_loop_total cited; the loop hands over an ordered pair whose "
+              "smaller member is one word, the primitive extended Euclid ends within any fuel above its operands, gcd_ext_in_place and "
+              "gcd_ext_large never run out of fuel above x + y, every word size >= 2.  Digit-level stop criterion of the series loops: C11 "
+              "sub_ulp_threshold (sub_ulp > 0 and >= |sum| B^-(2P+2) for every digit estimate) and series_fuel_partial (loops with rounding "
+              "operations and that threshold stop within series_fuel B P iterations) pinned as C16 obligations.  Cost classes "
+              "(Cross/CostClasses.v): a bound per operation in the operand lengths AND the numeric parameters; it covers the proved result "
+              "sizes (shl, mul, pow, to_int); for the length-polynomial family it is at most cubic in the input length; for shl no "
+              "polynomial of the input length (any degree, any constant) bounds the result size - the value of the shift count is the size.  "
               "The whole public surface is tied to the table by a watchdog-supervised correspondence run judged by the OCaml extraction of "
               "the table: every ownership form (vv vr rv rr, assigning by value / by reference) x word-count class of every operation with a "
               "documented panic, and every parser configuration x every character position of well-formed literals with a multi-byte "
@@ -117,19 +137,29 @@ LEVEL_TEXT = ("Machine-checked Coq theorems (coq/props/C16.v), for all inputs.  
               "extracted index-level models (asis=same on every parser case); buffer growth at the capacity edge (set_bit / clear_bit / "
               "shl / add / mul by a word at word index len-1 .. capacity+2 of values built fresh / shrunk / cloned into a larger buffer / "
               "grown, capacity read through the repr_layout hook) and the integer / fractional part of floats with exponents around "
-              "+-10^6, +-10^8, +-3*10^9, +-2^62 in every base are swept on every run.")
+              "+-10^6, +-10^8, +-3*10^9, +-2^62 in every base are swept on every run; so are Repr::new / from_parts of significands with k "
+              "trailing zero digits at the exponents isize::MAX - k - 1 .. + 1 in the bases 2, 3, 10, 16 (exact outcome predicted), the struct "
+              "form of the deserialisers (postcard, encoded by the harness) at the same edges, with zero significands, precision = digits "
+              "-1/0/+1, zero denominators, and 78 JSON texts x 9 types (every escape form, paired and lone surrogates, control characters, "
+              "raw non-UTF-8 bytes, trailing characters, every non-string JSON value) with the exact ok / err outcome predicted by the "
+              "extracted model; gcd / gcd_ext of multi-word values run the extracted Lehmer models (must return within the fuel).  In the "
+              "thorough tier about 400 large cases are timed (best of two runs) against c * cost_units of their class.")
 LEVEL_NOTE = ("Only compared (not proved): the outcome class ok / err / panic class / hang / crash of every operation that has no as-is model "
               "here (the table is the judge; the dictionary operation name -> call family in oracle/driver_c16.ml is trusted); the "
-              "human-readable (serde text) deserialisers (no model: run only, incl. the injected multi-byte sweep); that Rust's "
+              "deserialisers as seen through a real Deserializer: that serde_json behaves as the model of its string layer says and calls "
+              "exactly one visit method per deserialize_* request (third-party code; outcome compared per case, asis=same), that postcard "
+              "hands the struct form over as a sequence of well-typed elements; that Rust's "
               "find / rfind / strip_prefix / str::parse::<isize> behave as modelled (byte search for ASCII patterns, no panic); the series "
               "loops with the real digit-level rounding and the real sub_ulp (the theorems take any rounding with relative magnitude growth "
               "<= u and any threshold bounded below by B^-m; that the sum's exponent is bounded below, i.e. the value of m, and that "
-              "1 <= x_scaled < 2 / 2 ln B <= B for the rounded constants are hypotheses); the extended Lehmer loop (gcd_ext_in_place) "
-              "and the word-level carries of lehmer_step; that the word-level "
+              "1 <= x_scaled < 2 / 2 ln B <= B for the rounded constants are hypotheses; C11's digit-level theorems are cited but that the "
+              "Z-level loops of C11's ElemAsis.v are instances of them is C11's open item); the word-level carries of lehmer_step / "
+              "lehmer_ext_step and that the cofactors fit their buffers (the model's panic branches, never fired in the run); wall clock: the "
+              "cost bounds are compared with measured times only in the thorough tier, with loose constants (support, not proof); that the word-level "
               "scratch buffers suffice for multiplication (see ScratchMemory when present) ; wall clock and allocator behaviour are observed.  "
               "The near-overflow band of isize exponents is accepted either way (ok or overflow panic) and counted.  Trusted: Coq kernel, "
               "extraction, the driver dictionary, the harness, the runner's watchdog.")
-TECHNIQUE = "Coq proof of panic-set tables, of fuel sufficiency (series loops with rounding, Lehmer, Newton, D&C recursions) and of slice-index legality of the text parsers on all UTF-8 + regenerated parser tables + watchdog-supervised correspondence run over the public surface"
+TECHNIQUE = "Coq proof of panic-set tables, of fuel sufficiency (series loops with rounding, Lehmer incl. the extended loop, Newton, D&C recursions), of slice-index legality of the text parsers on all UTF-8, of the totality of the serde visitors on every event and of Repr::new with the isize exponent + regenerated parser / serde tables + watchdog-supervised correspondence run over the public surface (thorough tier: measured time against proved cost bounds)"
 RULE = ("cases = two systematic sweeps on every run - (a) every ownership form vv vr rv rr av ar x word-count class (1/1, 1/2, 2/2 words, "
         "equal length differing in the low / the top word, equal, either operand longer, large against 1 or 2 words) of every violated "
         "documented precondition of the binary operators and methods of UBig, IBig, mixed UBig/IBig, FBig, RBig, Relaxed; (b) every parser "
@@ -144,7 +174,7 @@ RULE = ("cases = two systematic sweeps on every run - (a) every ownership form v
         "2^24 and usize::MAX where the result is small, empty / non-ASCII / overlong strings, random byte streams for the "
         "deserialisers}.  A case is non-trivial when the oracle evaluated the extracted table on it and the operation is not in the "
         "never-panics family, or the implementation panicked / refused; distinct = distinct case texts.")
-EXPLANATION = ("Theorems (coq/props/C16.v, 95): the documented panic table is characterised per reason; the as-is models of the panic "
+EXPLANATION = ("Theorems (coq/props/C16.v, 125): the documented panic table is characterised per reason; the as-is models of the panic "
                "mechanisms equal the table outside the open finding classes and are refuted inside them by witnesses; loops modelled "
                "with fuel never run out under the stated bounds (series loops with rounding: fuel linear in the precision; Lehmer gcd: "
                "x + y decreases; Newton, ilog, remove, D&C division and radix conversion, window exponentiation: imported); every "
@@ -152,7 +182,11 @@ EXPLANATION = ("Theorems (coq/props/C16.v, 95): the documented panic table is ch
                "equal the C08 / C07 models), so the parsers return Ok or Err, never panic.  Ties: the scale-marker table, the slice "
                "sites and the iacoth arguments are regenerated from the Rust sources on every run and the theorems are re-proved over "
                "them; every public operation is run in supervised workers and its outcome class ok / err / panic(class) / hang / "
-               "crash is compared with the extracted table, the parsers' exact outcome with the extracted index-level models.")
+               "crash is compared with the extracted table, the parsers' exact outcome with the extracted index-level models.  "
+               "Round 4: the serde visitors return Ok or Err on every event (tables regenerated from the three serde.rs files), "
+               "serde_json input of any bytes included; Repr::new equals its specification incl. the documented exponent overflow "
+               "(finding F14 repaired); the extended Lehmer gcd never runs out of fuel above x + y; cost bounds per operation cover the "
+               "proved result sizes; exact outcomes of deserialisers and of Repr::new are predicted by the extracted models.")
 TRUSTED_BASE = [
     "Coq 8.16.1 kernel (coqc, full .vo builds)",
     "extraction: ExtrOcamlBasic + ExtrOcamlZBigInt + coq/extract/FastZ.v",
@@ -160,6 +194,9 @@ TRUSTED_BASE = [
     "Rust harness harness/src/bin/c16.rs (panic capture, message -> class table, capping allocator, u.growth: capacity read through the cfg(dashu_verif) hook repr_layout_ubig), tools/core.py run_lines watchdog",
     "tools/translate_c16_r3.py (regular-expression reader of the scale_pos match of float/src/parse.rs, of the index-slice expressions of the three parse files and of the iacoth call arguments of float/src/log.rs -> coq/gen/ParseSites.v at plug-in import; 'unparsed' keeps the last good copy, marked STALE)",
     "the model of Rust's str API in Cross/Utf8.v: is_char_boundary, slicing panics exactly when an index is out of range or not a boundary, find / rfind of an ASCII pattern = byte search",
+    "tools/translate_c16_r4.py (regular-expression reader of the Visitor impls, Deserialize entry points, visit_str bodies, infinity_from_str, repr_from_fields and try_normalize -> coq/gen/SerdeSites.v at plug-in import; 'unparsed' keeps the last good copy, marked STALE)",
+    "the model of serde's contract in Cross/SerdeText.v: a Deserializer calls one visit_* method per request, unimplemented methods are serde's default invalid_type error; the model of serde_json 1.0.151's string layer (parse_str_bytes / parse_escape / parse_unicode_escape / end); the harness's own postcard encoder of the struct form",
+    "the wall clock of the thorough-tier timing cases (std::time::Instant, best of two runs) and the class constants in oracle/driver_c16.ml",
 ]
 ASSUMPTIONS = [
     "values are moved through raw words (UBig::from_words, IBig::from_parts, Repr::new, RBig::from_parts), never through a parser",
@@ -1053,8 +1090,13 @@ def gen_lehmer(rng, out):
     lengths, a much shorter second operand, Fibonacci-like pairs (quotients of one: the longest runs)"""
     nw = rng.choice([3, 3, 4, 5, 8, 17, 40])
     a = gen_mag(rng, nw)
-    k = rng.below(6)
-    if k == 0:
+    k = rng.below(8)
+    if k >= 6:
+        # the same number of words with a tiny top word in the smaller operand: the guess fails (quotient of the leading
+        # words above COEFF_LIMIT) and the Euclidean fallback has to make the progress
+        a = a | (1 << (64 * nw - 1))
+        b = (rng.choice([1, 1, 2, 255]) << (64 * (nw - 1))) + rng.bits(64 * (nw - 1))
+    elif k == 0:
         b = gen_mag(rng, nw)
     elif k == 1:
         b = gen_mag(rng, rng.choice([3, max(3, nw - 1), max(3, nw // 2)]))
@@ -1103,16 +1145,16 @@ def gen_timing(rng, out):
         bt = rng.choice(list(BASES))
         p = rng.choice([100, 1000, 5000])
         x, y = fsig(rng, BASES[bt], p, True) | 1, fsig(rng, BASES[bt], p, True) | 1
-        out.append("T.f.%s %s %s %x %s %s %s %s" % (rng.choice(["op_add", "op_mul", "op_div"]), bt, rng.choice(MODES), p, hx(BASES[bt] ** (p - 1) + abs(x)), hx(rng.range(-50, 50)),
-                                                    hx(BASES[bt] ** (p - 1) + abs(y)), hx(rng.range(-50, 50))))
+        out.append("T.f.%s %s %s %x %s %s %s %s" % (rng.choice(["op_add", "op_mul", "op_div"]), bt, rng.choice(MODES), p, hx(BASES[bt] ** (p - 1) + abs(x) % BASES[bt] ** (p - 1)), hx(rng.range(-50, 50)),
+                                                    hx(BASES[bt] ** (p - 1) + abs(y) % BASES[bt] ** (p - 1)), hx(rng.range(-50, 50))))
     elif k == 7:
         bt = rng.choice(list(BASES))
         p = rng.choice([30, 100, 300, 800])
-        x = BASES[bt] ** (p - 1) + rng.bits(40)
+        x = BASES[bt] ** (p - 1) + rng.bits(40) % BASES[bt] ** (p - 1)
         out.append("T.f.%s %s %s %x %s %s" % (rng.choice(["v_exp", "v_ln", "v_ln_1p", "v_exp_m1"]), bt, rng.choice(["HalfEven", "Zero", "Up"]), p, hx(x), hx(-(p - 1) - rng.choice([0, 1, 3]))))
     elif k == 8:
         bt = rng.choice(["3", "a", "2", "10"])
-        out.append("T.f.%s %s Zero 5 %s %s" % (rng.choice(["repr_to_int", "try_ibig"]), bt, hx(rng.range(1, 200) * 2 + 1), hx(rng.choice([1000, 100000, 1000000]))))
+        out.append("T.f.%s %s Zero 40 %s %s" % (rng.choice(["repr_to_int", "try_ibig"]), bt, hx(rng.range(1, 200) * 2 + 1), hx(rng.choice([1000, 100000, 1000000]))))
     elif k == 9:
         n, d = rng.bits(64) | 1, (rng.bits(64) | 1) + (1 << 64)
         out.append("T.q.%s %s %s %s" % (rng.choice(["next_up", "next_down"]), hx(n), hx(d), hx(rng.choice([100, 10000, 1000000]))))
